@@ -371,6 +371,83 @@ example :
   | 1 => decide
   | n + 2 => simp [addressed]
 
+/-- The results stored in a started, not dropped operation state. -/
+def resultsOf : Status → Option Results
+  | .running r | .done r => some r
+  | _ => none
+
+def toRes (c : Cqe) : Res := ⟨c.res, c.flags⟩
+
+theorem foldl_upd1_results (l : List Cqe) : ∀ (o : Op) (r : Results), resultsOf o.status = some r →
+    resultsOf (l.foldl upd1 o).status = some (l.foldl (fun (r : Results) c => r.update (toRes c)) r) := by
+  induction l with
+  | nil => intro o r h; simpa using h
+  | cons c l ih =>
+    intro o r h
+    simp only [List.foldl_cons]
+    apply ih
+    cases o with
+    | mk multi status waker boxLive resInit futLive frees resDrops =>
+    cases status <;> simp [resultsOf] at h <;> subst h <;>
+      cases hm : fMore c.flags <;> cases multi <;> cases waker <;>
+      simp [upd1, Op.update, hm, resultsOf, toRes]
+
+theorem foldl_update_multi (l : List Cqe) : ∀ (q : List Res),
+    l.foldl (fun (r : Results) c => r.update (toRes c)) (Results.multi q) = Results.multi (q ++ l.map toRes) := by
+  induction l with
+  | nil => intro q; simp
+  | cons c l ih =>
+    intro q
+    simp only [List.foldl_cons, List.map_cons]
+    have : (Results.multi q).update (toRes c) = Results.multi (q ++ [toRes c]) := rfl
+    rw [this, ih]; simp
+
+theorem foldl_update_single (l : List Cqe) : ∀ (x : Res),
+    l.foldl (fun (r : Results) c => r.update (toRes c)) (Results.single x) = Results.single ((l.map toRes).foldl OpSys.slotStep x) := by
+  induction l with
+  | nil => intro x; simp
+  | cons c l ih =>
+    intro x
+    simp only [List.foldl_cons, List.map_cons]
+    have : (Results.single x).update (toRes c) = Results.single (OpSys.slotStep x (toRes c)) := by
+      cases hn : fNotif (toRes c).flags <;> simp [Results.update, OpSys.slotStep, hn]
+    rw [this, ih]
+
+/-- **Each operation's stored results are exactly its own completions, in the kernel's order —
+for every batch.** For a started, not dropped operation `i` of the multi-operation system, after
+the completion loop has processed ANY list of completions: a multishot operation's queue is its
+queue before followed by exactly the completions addressed to `i`, in order (none lost, none
+twice, none of a neighbour's); a single-shot operation's slot holds the last non-notification
+completion addressed to `i` (a zero-copy notification never overwrites the result; with no such
+completion it is unchanged). -/
+theorem C02_batch_results (cs : List Cqe) (s : Sys) (a : Acc) (i : Nat) (o : Op)
+    (ho : s.ops[i]? = some o) :
+    (∀ q, resultsOf o.status = some (.multi q) →
+      ∃ o', (processAll s a cs).1.ops[i]? = some o' ∧
+        resultsOf o'.status = some (.multi (q ++ (cs.filter (addressed i)).map toRes))) ∧
+    (∀ x, resultsOf o.status = some (.single x) →
+      ∃ o', (processAll s a cs).1.ops[i]? = some o' ∧
+        resultsOf o'.status =
+          some (.single (((cs.filter (addressed i)).map toRes).foldl OpSys.slotStep x))) := by
+  have hget : (processAll s a cs).1.ops[i]? = some ((cs.filter (addressed i)).foldl upd1 o) := by
+    rw [C02_own_completions_only, ho]; rfl
+  constructor
+  · intro q hq
+    exact ⟨_, hget, by rw [foldl_upd1_results _ o _ hq, foldl_update_multi]⟩
+  · intro x hx
+    exact ⟨_, hget, by rw [foldl_upd1_results _ o _ hx, foldl_update_single]⟩
+
+/-- Non-vacuity: two multishot operations and a zero-copy style single-shot one, interleaved. -/
+example :
+    let s : Sys := { ops := [{ multi := true, status := .running (.multi [⟨1, 2⟩]) },
+                             { multi := true, status := .done (.multi []) },
+                             { multi := false, status := .running (.single ⟨0, 0⟩) }] }
+    let cs : List Cqe := [⟨.op 1, 8, 2⟩, ⟨.op 0, 2, 2⟩, ⟨.op 2, 77, 2⟩, ⟨.op 1, 9, 2⟩, ⟨.op 2, 0, 8⟩,
+                          ⟨.op 0, 3, 0⟩]
+    (processAll s {} cs).1.ops.map (fun o => resultsOf o.status) =
+      [some (.multi [⟨1, 2⟩, ⟨2, 2⟩, ⟨3, 0⟩]), some (.multi [⟨8, 2⟩, ⟨9, 2⟩]),
+       some (.single ⟨77, 2⟩)] := by decide
+
 /-- `drainCq` is this loop over the queue's contents. -/
 theorem drainCq_ops (s : Sys) (a : Acc) : (s.drainCq a).1.ops = (processAll s a s.cq).1.ops := by
   simp [Sys.drainCq, processAll]
